@@ -159,7 +159,7 @@ class Url:
         except ValueError:
             # If unable to convert last part into port,
             # treat entire data as host
-            host, port = raw, None
+            host, port = split_at[-1], None
         # patch up invalid ipv6 scenario
         rhost = host.decode('utf-8')
         if COLON.decode('utf-8') in rhost and \
